@@ -210,7 +210,13 @@ func (s *chaos) build() {
 		g.do("scribblerows " + t)
 	default:
 		es := fmt.Sprintf("%d", 500+r.n(40))
-		switch r.n(4) {
+		switch r.n(5) {
+		case 4:
+			if row := s.anyRow(); row != "" && g.x.rows[idOf(row)] != nil && r.chance(1, 2) {
+				g.do("rowadderrself " + row + " " + es)
+			} else {
+				g.do("tadderrself " + t + " " + es)
+			}
 		case 0:
 			g.do("tadderr " + t + " " + es)
 		case 1:
@@ -399,7 +405,7 @@ func (s *chaos) settings() {
 		}
 	case q < 4:
 		w := s.wrapper("html")
-		args := " id=" + hx(r.text(alphaHTML, 2)) + " cls=" + hx(r.text(alphaHTML, 2)) + " cap=" + hx(r.text(alphaHTML, 2)) + r.pick([]string{"", "", " tn=" + hx("layout"), " tn=" + hx("x{{y}}")})
+		args := " id=" + hx(r.text(alphaHTML, 2)) + " cls=" + hx(r.text(alphaHTML, 2)) + " cap=" + hx(r.text(alphaHTML, 2)) + r.pick([]string{"", "", " tn=" + hx("layout"), " tn=" + hx("x{{y}}"), " tn=" + hx(r.pick([]string{"tr", "td", "th", "table", "row", "cell", "T", "tbody", "thead", "Headers", "Rows"}))})
 		if r.chance(2, 3) {
 			var l []string
 			for n := 0; n <= g.x.tables[idOf(w.t)].NRows()+3; n++ {
